@@ -39,8 +39,8 @@ CHUNK_COST = 90000               # judged (target, valuation) pairs per TLC proc
 ALL_POS = ("rhs", "if", "case", "index", "cmp")
 
 L1 = {   # per tier: sampled ASTs (depth 2 / depth 3), shape pairs per sampled two-variable AST, full depth-2 space
-    "quick":    {"s2": 700, "s3": 300, "kshapes": 3, "d2": False, "kd2": 0},
-    "thorough": {"s2": 3000, "s3": 3000, "kshapes": 3, "d2": True, "kd2": 2},
+    "quick":    {"s2": 700, "s3": 300, "kshapes": 3, "d2": False, "kd2": 0, "klower": 2},
+    "thorough": {"s2": 3000, "s3": 3000, "kshapes": 3, "d2": True, "kd2": 2, "klower": 27},
 }
 
 
@@ -305,6 +305,21 @@ def layer1(report, tier, seed, scratch, coll, log=print):
         add(t, [(a, b, ALL_POS) for a, b in allpairs] if 2 in fam.ast_vars(t) else [(a, (1, 0), ALL_POS) for a in fam.VARSHAPES])
     seen = {t for _, t in d1}
     rng = random.Random("%s/c01-shapes" % seed)
+    # the slice-lowering space: every unsigned shape pair (each element boundary is then crossed by 0, 1, 2 bits) plus a few
+    # signed ones, as right-hand side
+    lw, _ = enum_space("lower", scratch)
+    upairs = [(a, b) for a, b in allpairs if not a[1] and not b[1]]
+    spairs = [p for p in allpairs if p not in upairs]
+    before = len(asts)
+    for _, t in lw:
+        if t in seen:
+            continue
+        seen.add(t)
+        if 2 in fam.ast_vars(t):
+            add(t, [(a, b, ("rhs",)) for a, b in upairs + rng.sample(spairs, cfg["klower"])])
+        else:
+            add(t, [(a, (1, 0), ("rhs",)) for a in fam.VARSHAPES])
+    spaces["slice_lowering_all"] = len(asts) - before
 
     def add_sampled(t, k):
         if t in seen:
@@ -493,6 +508,8 @@ def report_trace_failures(report, coll, traces, fails, layer):
             sig = {"layer": layer, "clause": f["clause"], "cause": "-", "design": t.get("label"),
                    "regular_comb": t.get("regular_comb")}
             sig.update(t.get("sigextra", {}))
+        if t.get("sigfamily"):
+            sig["family"] = t["sigfamily"]
         replay = {"kind": "trace", "layer": layer, "factory": t.get("factory"), "clause": f["clause"], "step": f["step"],
                   "differs": shown, "verilog": _module_text(t.get("verilog", ""))}
         text = "%s: %s (regular_comb=%s): after tick %d the emitted Verilog and the simulator differ on %s" % (
@@ -520,6 +537,20 @@ def layer2(report, tier, seed, scratch, coll, log=print):
                         "comb_cat": t["comb_cat"], "mixed_arr": t["mixed_arr"]}
         t["sigextra"] = {"seed": t["seed"]}
     traces[-1]["factory"] = {"kind": "mixed-array-probe", "seed": seed}
+    # slices of a Cat on the LEFT (the lowerer's target context): every slice of up to 4 bits of 2 / 3 elements of 1-3 bits
+    ljobs = [(w, m, seed, cfg["cycles"]) for w in fam.LOWER_LHS_WIDTHS for m in ("inside", "crossing")] + [((2, 3), "crossing-driven", seed, cfg["cycles"])]
+    pool = _pool()
+    try:
+        lt = pool.map(fam.record_lower_lhs, ljobs, chunksize=1)
+    finally:
+        pool.terminate()
+    for j, t in zip(ljobs, lt):
+        if "skip" in t:
+            raise MachineryError("slice-of-Cat target design %s not recordable: %s" % (j[:2], t["skip"]))
+        t["factory"] = {"kind": "lower-lhs", "widths": list(j[0]), "mode": j[1], "seed": seed, "cycles": cfg["cycles"]}
+        t["sigextra"] = {"widths": list(j[0])}
+    nlower = len(lt)
+    traces += lt
     trec = time.time() - t0
     fails, st = [], {"states": 0, "transitions": 0, "wall": 0.0, "hyp_chains": 0}
     B = 400
@@ -542,7 +573,7 @@ def layer2(report, tier, seed, scratch, coll, log=print):
         if v == 0 and cfg["fragments"] >= 100:
             raise MachineryError("layer 2 witness %s is zero: the generated fragments do not exercise it" % k)
     report.add(states=st["states"], transitions=st["transitions"], traces_validated_against_impl=ok)
-    report.add(layer2={"fragments": len(traces), "skipped": len(skipped), "cycles": cfg["cycles"], "ticks_validated": st["states"],
+    report.add(layer2={"fragments": len(traces), "slice_of_cat_target_designs": nlower, "skipped": len(skipped), "cycles": cfg["cycles"], "ticks_validated": st["states"],
                        "rejected": len([f for f in fails if f["cause"] == "-"]),
                        "rejected_by_cause": {c: len([f for f in fails if f["cause"] == c and f["clause"] == "StepEq"])
                                              for c in ("port-reg-init", "multi-driver")},
@@ -712,6 +743,8 @@ def replay(path):
                 t = fam.record_mixed_array_probe(fa["seed"])
             elif fa["kind"] == "fragment":
                 t = fam.record_fragment((fa["seed"], fa["cycles"], fa["regular_comb"], fa.get("comb_cat", True), fa.get("mixed_arr", False)))
+            elif fa["kind"] == "lower-lhs":
+                t = fam.record_lower_lhs((tuple(fa["widths"]), fa["mode"], fa["seed"], fa["cycles"]))
             elif fa["kind"] == "memory":
                 t = fam.record_memory((fa["seed"], fa["cycles"]))
             elif fa["kind"] == "corpus":
